@@ -64,7 +64,9 @@ pub broadcast axiom fn r_div_pos(a: f64, b: f64) ensures
     R(b) >= 1real ==> rabs(R(a.div_spec(b))) <= rabs(R(a)),
     R(b) >= 101real / 100real ==> (101real / 100real) * rabs(R(a.div_spec(b))) <= rabs(R(a));
 pub broadcast axiom fn r_div_special(a: f64, b: f64) ensures R(b) != 0real && R(a) == 0real ==> R(#[trigger] a.div_spec(b)) == 0real,
-    R(b) != 0real && R(a) == R(b) ==> R(a.div_spec(b)) == 1real;
+    R(b) != 0real && R(a) == R(b) ==> R(a.div_spec(b)) == 1real,
+    R(b) != 0real && R(a) == 0real - R(b) ==> R(a.div_spec(b)) == 0real - 1real;
+pub broadcast axiom fn r_mul_nonzero(a: f64, b: f64) ensures R(a) != 0real && R(b) != 0real ==> R(#[trigger] a.mul_spec(b)) != 0real;
 pub broadcast axiom fn r_mul_zero(a: f64, b: f64) ensures R(a) == 0real || R(b) == 0real ==> R(#[trigger] a.mul_spec(b)) == 0real;
 pub broadcast axiom fn r_div_one(a: f64, b: f64) ensures R(a) == 1real && 0real < R(b) <= 1real ==> R(#[trigger] a.div_spec(b)) >= 1real,
     R(a) >= 1real && 0real < R(b) <= 99real / 100real ==> R(a.div_spec(b)) >= 101real / 100real;
@@ -72,6 +74,8 @@ pub broadcast axiom fn r_div_unit(a: f64, b: f64) ensures R(b) == 1real ==> R(#[
     R(a) >= 1real && 0real < R(b) <= 1real ==> R(a.div_spec(b)) >= 1real,
     R(a.div_spec(b)) > 1real && R(b) > 0real ==> R(a) > R(b), R(a.div_spec(b)) > 1real && R(b) < 0real ==> R(a) < R(b),
     R(b) < 0real ==> (R(a.div_spec(b)) > 0real <==> R(a) < 0real) && (R(a.div_spec(b)) < 0real <==> R(a) > 0real);
+/// small integers convert exactly (machine arithmetic treated as mathematical)
+pub broadcast axiom fn r_of_usize_exact(x: usize) ensures x <= 1024 ==> R(#[trigger] s_of_usize(x)) == x as int as real;
 pub broadcast axiom fn r_of_usize(x: usize) ensures R(#[trigger] s_of_usize(x)) >= 0real, x >= 1 ==> R(s_of_usize(x)) >= 1real;
 #[verifier::allow(broadcast_without_trigger)]
 pub broadcast axiom fn r_of_usize_5() ensures R(s_of_usize(5)) == 5real;
@@ -80,7 +84,7 @@ pub broadcast axiom fn r_powf_le1(a: f64, p: f64) ensures R(a) >= 1real && R(p) 
 pub broadcast axiom fn r_mul_shrink(a: f64, b: f64) ensures 0real <= R(b) <= 4real / 5real ==> 5real * rabs(R(#[trigger] a.mul_spec(b))) <= 4real * rabs(R(a));
 #[verifier::allow(broadcast_without_trigger)]
 pub broadcast axiom fn r_min_positive() ensures R(MIN_POSITIVE_s()) > 0real;
-pub broadcast axiom fn r_clamp_cast(x: f64, a: f64, b: f64) ensures R(a) <= R(b) && R(b) <= 5real ==> #[trigger] s_to_usize(s_clamp(x, a, b)) <= 5;
+pub broadcast axiom fn r_clamp_cast(x: f64, a: f64, b: f64) ensures R(a) <= R(b) && R(b) <= 5real ==> #[trigger] s_to_usize(s_clamp(x, a, b)) <= 5, R(a) <= R(b) && R(a) >= 1real ==> s_to_usize(s_clamp(x, a, b)) >= 1;
 pub broadcast axiom fn r_mul_div_cancel(a: f64, b: f64) ensures R(b) != 0real ==> R(b.mul_spec(#[trigger] a.div_spec(b))) == R(a) && R(a.div_spec(b).mul_spec(b)) == R(a);
 pub broadcast axiom fn r_cmp(a: f64, b: f64) ensures #[trigger] a.partial_cmp_spec(&b) == (if R(a) < R(b) { Some(Ordering::Less) } else if R(a) == R(b) { Some(Ordering::Equal) } else { Some(Ordering::Greater) });
 pub broadcast axiom fn r_eq(a: f64, b: f64) ensures #[trigger] a.eq_spec(&b) == (R(a) == R(b));
@@ -96,7 +100,7 @@ pub broadcast axiom fn r_nan(a: f64) ensures !(#[trigger] s_is_nan(a));
 #[verifier::allow(broadcast_without_trigger)]
 pub broadcast axiom fn r_epsilon() ensures R(EPSILON_s()) > 0real;
 pub broadcast group f64_ops { f64_add_req, f64_sub_req, f64_mul_req, f64_div_req, f64_deterministic,
-    r_add, r_sub, r_mul, r_mul_unit_r, r_mul_unit_l, r_mul_sign, r_mul_sign2, r_mul_le, r_div_pos, r_div_special, r_mul_zero, r_div_one, r_div_unit, r_of_usize, r_of_usize_5, r_powf_le1, r_mul_shrink, r_min_positive, r_clamp_cast, r_mul_div_cancel, r_cmp, r_eq, r_signum, r_abs, r_min, r_max, r_clamp, r_neg, r_powf, r_sqrt, r_nan, r_epsilon }
+    r_add, r_sub, r_mul, r_mul_unit_r, r_mul_unit_l, r_mul_sign, r_mul_sign2, r_mul_le, r_div_pos, r_div_special, r_mul_nonzero, r_mul_zero, r_div_one, r_div_unit, r_of_usize, r_of_usize_exact, r_of_usize_5, r_powf_le1, r_mul_shrink, r_min_positive, r_clamp_cast, r_mul_div_cancel, r_cmp, r_eq, r_signum, r_abs, r_min, r_max, r_clamp, r_neg, r_powf, r_sqrt, r_nan, r_epsilon }
 }
 pub assume_specification [f64::signum] (x: f64) -> (r: f64) ensures r == s_signum(x);
 pub assume_specification [f64::abs] (x: f64) -> (r: f64) ensures r == s_abs(x);
